@@ -308,6 +308,13 @@ def seqEngine (c i : List String) : Option Res := do
             (ok, if ok then "" else "final state differs", s!"{b2s mex} {optInt mval} {st.bestLb} {st.bestUb} {st.explored}")
         let interrupted := ex == "0"
         let fails := withFeatureFails cfg.cache fam.domRule.isSome (phiSolver fam (cfg.kind == 2) cfg.primal interrupted (ex == "1") value lb ub sol cfg.stopAt.isSome)
+        -- C15: with long arcs the pooled solver must behave like the others.  A wrong value in a run WITH the threshold cache is what
+        -- the open finding D5 produces (the re-enqueued root is pruned by the cache): same key as the non-termination; without cache
+        -- D5 can only loop, so a wrong value there is something else
+        let fails := if cfg.kind == 2 && !(allImpacted fam) then
+            fails ++ (fails.filter (fun s => s.startsWith "C01:" || s.startsWith "C02:reported solution" || s.startsWith "C02:several")).map
+              (fun s => (if cfg.cache then "C15:pooled-long-arcs (with cache) " else "C15:long arcs, no cache: ") ++ s)
+          else fails
         pure { agree := agree, phi := fails.isEmpty, model := ms, note := failNote fails ++ (if agree then "" else " TAPE: " ++ why) }
       | _ => none
     | [["hang"]] | [["hang"], _] =>
